@@ -155,6 +155,7 @@ def check(rep: Report, ctx: Ctx) -> None:
     r125(rep, ctx, sql)
     r127(rep, ctx, sql)
     r129(rep, ctx)
+    r1210(rep, ctx)
 
 
 def r128(rep: Report, ctx: Ctx) -> bool:
@@ -727,3 +728,16 @@ def r129(rep: Report, ctx: Ctx) -> None:
              "empty and real parent ids; = C10 R10.7 / C11 R11.9)", 3)
     from .c10 import root_classification
     root_classification(rep, ctx, "R12.9")
+
+
+def r1210(rep: Report, ctx: Ctx) -> None:
+    """(shared with C10 R10.5 / C11 R11.10)  "whole": the streamed span lists
+    its children through the link rows; a link that is queued apart from its
+    span is dropped when the next batch goes through the duplicate filter,
+    and the parent is streamed without that child (seed C12-z)."""
+    rep.rule("R12.10", "the link row of every child reaches the store: span "
+             "and link are queued together and flushed together (= C10 "
+             "R10.5)", 6)
+    from . import c10 as _c10
+    from .util import borrow
+    borrow(rep, ctx, _c10, "C10", "R10.5", "R12.10")
